@@ -4,7 +4,7 @@ Require Import ExtrOcamlBasic.
 Extraction Language OCaml.
 Extraction "../ocaml/c13/model.ml" util_add util_mul util_divmod
   encode decode size size_upper_limit wf_entryb size_checked size_checked_len encode_head
-  decode_outcome_len size_len
+  decode_outcome_len size_len size_upper_limit_len
   encode_header decode_header write_message write_header read_frame crc32 transport_encrypted serve_conn
   state_encode state_size state_decode state_size_upper
   session_encode session_size session_decode
